@@ -189,6 +189,17 @@ int main(int argc, char** argv) {
       try { for (long long i = 1; i <= L; i++) { if (i > 1) ev_s(","); item(get(v, $I(-i))); } } catch (e) { if (!exc[0]) exc = exc_name(e); ev_s(",-888888"); }
       ev_s("]"); ev_int("hasgetn", 1);
     } else { ev_s("]"); ev_int("hasgetn", 0); }
+    /* membership: mem(view, x) for a few integers, where the view implements it and yields Ints (not tuples) */
+    { static const int64_t probes[] = { 0, 1, 2, 3, 4, 5, 6, 7, 9, 10, 12, 16, 18, 101, 104, 106 };   /* non-negative: a Range reads a negative key as a position from its end */
+      int istup = (type_of(v) == Zip); { var t = v; while (type_of(t) == Map || type_of(t) == Filter || type_of(t) == Slice) { t = type_of(t) == Slice ? ((struct Slice*)t)->iter : type_of(t) == Map ? ((struct Map*)t)->iter : ((struct Filter*)t)->iter; if (type_of(t) == Zip) istup = 1; } }
+      ev_key("mems"); ev_s("[");
+      if (!istup && !has_map_base && implements_method(v, Get, mem)) {
+        for (size_t i = 0; i < sizeof probes / sizeof probes[0]; i++) {
+          volatile int r = -1; try { r = mem(v, $I(probes[i])) ? 1 : 0; } catch (e) { r = -2; }
+          if (i) ev_s(","); ev_s("["); ev_i(probes[i]); ev_s(","); ev_i(r); ev_s("]");
+        }
+      }
+      ev_s("]"); }
     ev_str("exc", exc); ev_str("phase", "iter"); ev_int("line", cur_line);
     ev_end();
     v = NULL;
